@@ -1085,9 +1085,11 @@ impl<Octs: Octets> TerminationMessage<Octs> {
     /// Return an iterator over the Information TLVs.
     // XXX D-R-Y with TLVs from InitiationMessage
     pub fn information(&self) -> InformationIter {
+        // `check` validated the TLVs over all octets held, so that is where
+        // the iterator ends (the header's length field is not validated).
         InformationIter::new(
             &self.octets.as_ref()[6..],
-            self.common_header().length() as usize - 6
+            self.octets.as_ref().len() - 6
         )
     }
 }
@@ -1470,11 +1472,16 @@ impl<'a> InformationIter<'a> {
                 &self.octets[self.pos+4..self.pos+4+len as usize]
                 )
                 .into_owned();
-            self.pos += len as usize;
+            self.pos += 4 + len as usize;
             return TerminationInformation::CustomString(s)
         }
-        let val = u16::from_be_bytes(self.octets[self.pos+4..self.pos+4+len as usize].try_into().unwrap());
+        let raw = self.octets[self.pos+4..self.pos+4+len as usize].try_into();
         self.pos += 4 + len as usize;
+        let Ok(raw) = raw else {
+            // not a two-octet reason code
+            return TerminationInformation::Undefined(typ)
+        };
+        let val = u16::from_be_bytes(raw);
         match val {
             0 => TerminationInformation::AdminClose,
             1 => TerminationInformation::Unspecified,
